@@ -141,11 +141,13 @@ def impl_roundtrip(case):
         ci = build(case["desc"])
     except EXC as e:
         return ["build-error", type(e).__name__]
+    from suites.common import snap
+    before = snap(ci)
     try:
         text = ci.dumps()
     except EXC as e:
         return exc_result(e)
-    api = api_consistency(ci, CI.ComposeInfo, text)
+    api = api_consistency(ci, CI.ComposeInfo, text, before=before)
     if api:
         return ["api-inconsistent", api]
     ci2 = CI.ComposeInfo()
@@ -163,6 +165,11 @@ def impl_roundtrip(case):
 def impl_load(case):
     import productmd.composeinfo as CI
     ci = CI.ComposeInfo()
+    if case.get("preload"):
+        try:
+            ci.loads(json.dumps(case["preload"]))        # the same object is used for a second load
+        except Exception:
+            pass
     try:
         ci.loads(json.dumps(case["doc"]))
     except EXC as e:
